@@ -142,6 +142,34 @@ def job(j, seed):
                         cands.append((f'C05:{mode}:formula', case, 'finite branch != documented formula'))
         ob = C.prove(f'{tag}:boundary:both-outcomes-reachable', C.B.const(kinds == {'nan', 'finite'}))
         obs.append(ob_dict(ob))
+        if all(d == 'float64' for d in dts[1:]):
+            # t0 is fixed by double-precision operands only: t - t0 (which decides NaN) must be evaluated in double precision
+            # also for single-precision arrival times, i.e. the recorded operation sequence has no single-precision rounding
+            n32s = sorted({p.value._rnd[1] for p in paths if p.value is not None})
+            ob = C.prove(f'{tag}:boundary:decided in double precision when t0 has double-precision operands (single roundings: {n32s})', C.B.const(n32s in ([0], [])))
+            obs.append(ob_dict(ob))
+            if ob.status != 'discharged':
+                cands.append((f'C05:{mode}:boundary-precision', case, f'{n32s[-1]} single-precision roundings on the way to a float64 result whose t0 is known in double precision'))
+    elif what == 'f32range':
+        # values the kernel materialises in single precision (unit-scaled constants, per-pixel scale factors): normal float32
+        # numbers for EVERY unit combination of the quantifier (micro-eV..J, ns..s, angstrom..km) and inputs in their ranges
+        from symsc import variable as V
+        from .symutil import f32_range_obligations
+        E = sym_scalar('E', uE, dts[3])
+        tv = sym_scalar('t', uT, dts[0])
+        V.F32_LOG.clear()
+        paths = C.explore(lambda: f(tof=tv, L1=L1, L2=L2, **{earg: E}))
+        npaths = len(paths)
+        terms = list(V.F32_LOG)
+        meV = Fraction(1602176634, 10**31)
+        o2, bad, notes = f32_range_obligations(
+            f'{tag}:f32range', terms, {'sigma_E': 'energy', 'sigma_t': 'time', 'sigma_L1': 'length', 'sigma_L2': 'length'},
+            {'E': (meV / 1000, meV * 10**4, 'sigma_E'), 'L1': (Fraction(1, 10), 1000, 'sigma_L1'), 'L2': (Fraction(1, 10), 1000, 'sigma_L2')})
+        obs += [ob_dict(o) for o in o2]
+        ob = C.prove(f'{tag}:f32range:some single-precision value is materialised and checked', C.B.const(len(o2) >= 1 or any(d != 'float32' for d in dts)))
+        obs.append(ob_dict(ob))
+        for term, units in bad:
+            cands.append((f'C05:{mode}:float32-range', {**case, 'units': units}, f'{term} is subnormal / zero / out of range in float32 for units {units}'))
     elif what == 'overflow':
         # |scale/delta^2| below the overflow threshold when delta >= one spacing of t0 (interval obligation)
         p_bits = 24 if exp_dt == 'float32' else 53
@@ -194,6 +222,7 @@ def run(chk):
         dt_grid = list(itertools.product(['float64', 'float32'], repeat=4))
     jobs = [(m, d, w) for m in MODES for d in dt_grid for w in ('conservation', 'boundary')]
     jobs += [(m, d, 'overflow') for m in MODES for d in (('float64',) * 4, ('float32',) * 4)]
+    jobs += [(m, d, 'f32range') for m in MODES for d in dt_grid if 'float32' in d]
     jobs += [(m, ('float64',) * 4, w, 'graph') for m in MODES for w in ('conservation', 'boundary')]
     run_jobs(chk, job, jobs)
     from . import shimval
@@ -227,8 +256,19 @@ def replay_real(case):
     bad = []
     exp_dt = 'float32' if dts[0] == 'float32' and dts[3] == 'float32' else 'float64'
     tol = 1e-4 if 'float32' in dts else 1e-9
-    for eunit, tunit, l1u, l2u in [('meV', 'us', 'm', 'm'), ('J', 's', 'mm', 'km'), ('eV', 'ms', 'cm', 'm'), ('ueV', 'ns', 'm', 'mm')]:
-        for _ in range(6):
+    unit_cells = [('meV', 'us', 'm', 'm'), ('J', 's', 'mm', 'km'), ('eV', 'ms', 'cm', 'm'), ('ueV', 'ns', 'm', 'mm')]
+    nper = 6
+    if case.get('units') is not None:
+        # float32-range candidate: the whole unit grid of the quantifier, the solver's cell first
+        import itertools as it
+        u = case['units']
+        first = (u.get('sigma_E', 'J'), u.get('sigma_t', 's'), u.get('sigma_L1', 'm'), u.get('sigma_L2', 'm'))
+        unit_cells = [first] + list(it.product(['ueV', 'meV', 'eV', 'J'], ['ns', 'us', 'ms', 's'], ['angstrom', 'nm', 'mm', 'm', 'km'], ['angstrom', 'nm', 'mm', 'm', 'km']))
+        nper = 1
+    for eunit, tunit, l1u, l2u in unit_cells:
+        if len(bad) > 3:
+            break
+        for _ in range(nper):
             Ei = float(np.exp(rng.uniform(np.log(1e-3), np.log(1e4))))
             Ef = float(np.exp(rng.uniform(np.log(1e-3), np.log(1e4))))
             l1 = float(np.exp(rng.uniform(np.log(0.1), np.log(1e3))))
@@ -288,6 +328,12 @@ def replay_real(case):
             rel = abs(tstar - t0) / t0
             if rel > (1e-5 if 'float32' in dts else 1e-12):
                 bad.append(f'NaN boundary at {mp.nstr(tstar, 12)} but t0 = {mp.nstr(t0, 12)}')
+            if dts[0] == 'float32' and all(d == 'float64' for d in dts[1:]):
+                # t0 is fixed by double-precision operands: among single-precision arrival times the boundary lies between
+                # the two neighbours of t0 (largest NaN time <= t0 < smallest finite time, up to double rounding of t0)
+                thi = mp.mpf(float(hi)) * mp.mpf(float(sc.scalar(1.0, unit=tunit).to(unit='s').value))
+                if tstar > t0 * (1 + mp.mpf('1e-12')) or thi < t0 * (1 - mp.mpf('1e-12')):
+                    bad.append(f'float32 arrival times: NaN up to {mp.nstr(tstar, 15)}, finite from {mp.nstr(thi, 15)}, but t0 = {mp.nstr(t0, 15)} ({eunit},{tunit})')
             o = isnan(float(hi))[1]
             if np.isinf(o.value):
                 bad.append(f'infinite result just above the boundary (t={float(hi)!r} {tunit})')
